@@ -57,6 +57,63 @@ class Flow(object):
         gids = [g.id if hasattr(g, "id") else g for g in (guard_nodes or [])]
         return self.cfg.dominated(tids, gids, guard_edge, self.avoid, start)
 
+    def dominated_ps(self, targets, track, guard_nodes=None, guard_edge=None):
+        """Path-sensitive variant of ``dominated``: the values of the local
+        names in ``track`` are followed along each path while they are
+        constants (True/False/None/ints/strs), and a test on such a name
+        (`x`, `not x`, `x is None`, `x == c`) only continues along the arm the
+        value selects.  True iff no target is reachable without a guard."""
+        from .cfg import evalv, _Unknown
+        tids = set(t.id if hasattr(t, "id") else t for t in targets)
+        gids = set(g.id if hasattr(g, "id") else g for g in (guard_nodes or []))
+        track = list(track)
+        U = "<?>"
+
+        def transfer(node, st):
+            if node.id in gids:
+                return []
+            a = node.ast
+            if node.kind == "stmt" and isinstance(a, (ast.Assign, ast.AugAssign, ast.AnnAssign)):
+                tg = a.targets if isinstance(a, ast.Assign) else [a.target]
+                names = set()
+                for t in tg:
+                    for x in ast.walk(t):
+                        if isinstance(x, ast.Name):
+                            names.add(x.id)
+                if names & set(track):
+                    d = dict(st)
+                    for nm in names & set(track):
+                        v = a.value if isinstance(a, ast.Assign) and len(tg) == 1 and isinstance(tg[0], ast.Name) else None
+                        d[nm] = v.value if isinstance(v, ast.Constant) else U
+                    return [tuple(sorted(d.items()))]
+            elif node.kind in ("for_iter", "with_enter", "except"):
+                from .cfg import assigned_names
+                hit = assigned_names(node) & set(track)
+                if hit:
+                    d = dict(st)
+                    for nm in hit:
+                        d[nm] = U
+                    return [tuple(sorted(d.items()))]
+            return [st]
+
+        def edge(src, lab, dst, st):
+            if self.avoid is not None and self.avoid(src.id, lab, dst.id):
+                return None
+            if guard_edge is not None and guard_edge(src.id, lab, dst.id):
+                return None
+            if src.kind == "cond" and lab in ("T", "F"):
+                env = dict((k, v) for (k, v) in st if v != U)
+                if any(isinstance(x, ast.Name) and x.id in env for x in ast.walk(src.ast)):
+                    v = evalv(src.ast, env)
+                    if not isinstance(v, _Unknown):
+                        if bool(v) != (lab == "T"):
+                            return None
+            return st
+
+        init = tuple(sorted((nm, U) for nm in track))
+        ins, outs = self.cfg.forward(init, transfer, edge_transfer=edge)
+        return not any(ins[t] for t in tids)
+
     def witness(self, targets, guard_nodes=None, guard_edge=None, start=None):
         tids = [t.id if hasattr(t, "id") else t for t in targets]
         gids = [g.id if hasattr(g, "id") else g for g in (guard_nodes or [])]
